@@ -564,6 +564,9 @@ def decide_zero(expr, domain_points=None, symbols_domain=None):
     expr = sp.sympify(expr)
     if expr == 0:
         return "zero", None
+    if expr.has(sp.nan, sp.zoo):
+        # the source expression divides by an exact zero (e.g. an exponent 1/(t-1) at t = 1): undefined for every input
+        return "nonzero", ({}, "undefined: the expression contains a division by an exact zero")
     gen = normalise(expr)
     for _ in range(4):
         try:
